@@ -288,6 +288,9 @@ fn main() {
             _ => w32::build_lexer(&lsrc, flags, &owned),
         };
         bump(&format!("lexer-only:storage:{}", p["settings"]["storaget"].as_str().unwrap_or("u32")), &mut classes);
+        if let Some(fp) = p["settings"]["flag_probe"].as_str() {
+            bump(&format!("flag-probe:{fp}"), &mut classes);
+        }
         let Some(f) = lexer_fns(id) else {
             bump("lexer-not-built", &mut classes);
             if rt.is_ok() {
